@@ -142,14 +142,7 @@ def eraseNl (ts : List Tok) : List Tok := ts.map fun t => { t with nl := false }
 
 def fuelFor (ts : List Tok) : Nat := 40 * ts.length + 200
 
-/-- region `cr_peek`: a CR whose second-next byte is LF.  lexer.go:424 `peek` reads `p.str[p.offset+1]`, but `p.offset`
-    already is the offset of the next character, so skipWhiteSpace (lexer.go:530) mistakes `CR x LF` for CR LF. -/
-def crPeek : List Nat → Bool
-  | 13 :: x :: 10 :: r => true || crPeek (x :: 10 :: r)
-  | _ :: r => crPeek r
-  | [] => false
-
-def handleExpr (mode tree src toks : String) : String :=
+def handleExpr (mode tree toks : String) : String :=
   match readE (tree.splitOn ","), toks? toks with
   | some (t, []), some ts =>
     let model := match parseExpression (fuelFor ts) true ts with
@@ -157,14 +150,13 @@ def handleExpr (mode tree src toks : String) : String :=
       | _ => "reject"
     let lexOk := mode != "min" || eraseNl ts == Spec.print t ++ [{ k := .eof }]
     let spec := dumpStr t ++ (if lexOk then "" else ";lex")
-    let devs := (if Spec.relChain t then ["relational_chain"] else [])
-      ++ (if crPeek ((bytes? (src.drop 1).toString).getD []) then ["cr_peek"] else [])
-    model ++ " " ++ spec ++ " " ++ (if devs.isEmpty then "-" else ",".intercalate devs)
+    let dev := if Spec.relChain t then "relational_chain" else "-"
+    model ++ " " ++ spec ++ " " ++ dev
   | _, _ => "bad-request bad-request -"
 
 def handle (ws : List String) : String :=
   match ws with
-  | ["expr", mode, tree, src, toks] => handleExpr mode tree src toks
+  | ["expr", mode, tree, _src, toks] => handleExpr mode tree toks
   | "num" :: rest => Lit.handleNum rest
   | "str" :: rest => Lit.handleStr rest
   | _ => "bad-op bad-op -"
